@@ -30,6 +30,7 @@ GETTERS = [
     ("get_cell", 6), ("get_row", 5), ("get_cells", 4), ("get_rows", 3), ("traverse", 4), ("rows", 2), ("cells", 2),
     ("get_column", 3), ("get_columns", 3), ("columns", 2), ("traverse_columns", 3), ("get_column_cells", 3),
     ("row_get_cell", 3), ("row_traverse", 3), ("row_cells", 2), ("row_get_cells", 2), ("get_value", 2),
+    ("row_reports", 2), ("outside_live", 2),
 ]
 MUTS = ["set_value", "style", "repeated", "clear", "append_cell", "row_set_value"]
 
@@ -42,9 +43,20 @@ def gen_probe(eng, rng, tv):
         op["c"] = eng._coord(rng, tv)
         if g == "get_cell" and rng.chance(0.2, "keeprep"):
             op["keep_repeated"] = False
+    elif g == "row_reports":
+        # reports about a row, mostly at / past the end of the table
+        op["y"] = H + rng.choice([0, 0, 1, 3], "ry_off") if rng.chance(0.7, "ry_out") else eng._pick_y(rng, tv)
+    elif g == "outside_live":
+        # clone=False reads of positions that hold nothing: past the end of a row / of the table
+        y = eng._pick_y(rng, tv)
+        op["y"] = y
+        rw = len(tv.rows[y]) if y < H else 0
+        op["x"] = rw + rng.choice([0, 0, 1, 2], "ox_off")
     elif g in ("get_row", "row_get_cell", "row_traverse", "row_cells", "row_get_cells"):
         y = eng._pick_y(rng, tv)
         op["y"] = y
+        if g == "get_row" and rng.chance(0.25, "live_row"):
+            op["live"] = True
         if g == "row_get_cell":
             op["x"] = eng._pick_x_in_row(rng, tv, y)
         if g in ("row_traverse", "row_get_cells") and rng.chance(0.6, "range?"):
@@ -145,11 +157,41 @@ def run_probe(eng, op, tv):
                 feats.append("outside")
                 if v is not None:
                     vs.append(Violation("C08", "outside", name, feats, None, f"get_value outside the populated area returned {v!r}"))
+        elif g == "row_reports":
+            y = op["y"]
+            objs = []
+            ans = (t.get_row_values(y), t.is_row_empty(y), t.get_row_sub_elements(y))
+            if y >= H:
+                feats.append("outside")
+                if ts.norm(ans[0]) != [None] * W or ans[1] is not True:
+                    vs.append(Violation("C08", "outside", name, feats, None, f"a row past the end reports values {ans[0]!r}, empty={ans[1]!r}"))
+        elif g == "outside_live":
+            x, y = op["x"], op["y"]
+            feats.append("outside")
+            c1 = t.get_cell((x, y), clone=False)
+            c2 = t.get_cell((x + 1, y), clone=False)
+            if c1 is c2:
+                vs.append(Violation("C08", "aliased-sibling", name, feats, None, f"two reads of different empty positions ({x},{y}) and ({x + 1},{y}) returned the same object"))
+                return vs
+            if (c1.x, c1.y) != (x, y) or (c2.x, c2.y) != (x + 1, y):
+                vs.append(Violation("C08", "coords", name, feats, None, f"cells read at ({x},{y}) and ({x + 1},{y}) carry ({c1.x},{c1.y}) and ({c2.x},{c2.y})"))
+                return vs
+            c1.set_value(op["v"])
+            c3 = t.get_cell((x + 2, y))
+            r2 = Row()
+            c4 = r2.get_cell(3)
+            if c3.get_value() is not None or c4.get_value() is not None or c2.get_value() is not None:
+                vs.append(Violation("C08", "aliased-sibling", name, feats, None, "after a value was set on a cell read (clone=False) from an empty position, other empty positions are no longer empty"))
+                return vs
+            objs = []
         elif g == "get_row":
-            objs = [t.get_row(neg_y if op.get("neg") else op["y"])]
+            kw_live = {"clone": False} if op.get("live") else {}
+            objs = [t.get_row(neg_y if op.get("neg") else op["y"], **kw_live)]
             exp = [("row", None, op["y"])]
             if op["y"] >= H:
                 feats.append("outside")
+            if op.get("live"):
+                feats.append("clone_false")
         elif g in ("row_get_cell", "row_traverse", "row_cells", "row_get_cells"):
             y = op["y"]
             row = t.get_row(neg_y if op.get("neg") else y)
@@ -357,7 +399,7 @@ def run_probe(eng, op, tv):
         eng.resync()
         return vs
     eng.stats.probe("probe_mutated:" + type(target).__name__)
-    if g in DOCUMENTED_COPY:
+    if g in DOCUMENTED_COPY and not op.get("live"):
         after = t.serialize()
         if g in ("row_traverse", "row_get_cell") and row.serialize() != row_before:
             return vs + [Violation("C08", "aliased", name, feats + ["row_level"], None, f"mutating ({mut}) the cell returned for {exp[i]} changed the row it was read from")]
